@@ -382,6 +382,30 @@ theorem isIdentifier_of_shape (u : UEnv) (s : Str) (h1 : headAlpha s = true) (h2
       · simp [UEnv.isXidContinue, ascii_of_alnum x h, h]
       · subst h; simp [UEnv.isXidContinue, isAscii]
 
+def headAlphaOrUnderscore : Str → Bool
+  | c :: _ => isAsciiAlpha c || c == '_'
+  | [] => false
+
+theorem isIdentifier_of_shape' (u : UEnv) (s : Str) (h1 : headAlphaOrUnderscore s = true)
+    (h2 : okChars s = true) : u.isIdentifier s = true := by
+  cases s with
+  | nil => simp [headAlphaOrUnderscore] at h1
+  | cons c cs =>
+    simp only [headAlphaOrUnderscore, Bool.or_eq_true, beq_iff_eq] at h1
+    simp only [okChars, List.all_cons, Bool.and_eq_true] at h2
+    simp only [UEnv.isIdentifier, Bool.and_eq_true]
+    constructor
+    · rcases h1 with h1 | rfl
+      · simp [UEnv.isXidStart, ascii_of_alnum c (alnum_of_alpha c h1), h1]
+      · simp [UEnv.isXidStart, isAscii]
+    · rw [List.all_eq_true]
+      intro x hx
+      have := (List.all_eq_true.1 h2.2) x hx
+      have hx' : isAsciiAlnum x = true ∨ x = '_' := by simpa using this
+      rcases hx' with h | h
+      · simp [UEnv.isXidContinue, ascii_of_alnum x h, h]
+      · subst h; simp [UEnv.isXidContinue, isAscii]
+
 theorem okChars_append (a b : Str) : okChars (a ++ b) = (okChars a && okChars b) := by
   simp [okChars]
 
